@@ -400,6 +400,49 @@ func runC19(r *core.Run) {
 			return core.Outcome{Class: fmt.Sprint("nodes=", len(nodes)), Nontrivial: len(nodes) >= 2, Evals: evals}
 		})
 
+	type pairCase struct {
+		A []int `json:"tree_a"`
+		B []int `json:"tree_b"`
+	}
+	NP := core.Pick(r, 4, 5)
+	r.Bound("two-traversals-interleaved", fmt.Sprintf("every ordered pair of ordered trees with 1..%d nodes, traversals {Pre,Pre}, {Post,Post}, {Pre,Post}: every interleaving of the pulls; each side abandoned after every number of items while the other goes on; a plain run of each afterwards", NP))
+	core.Clause(r, "two-traversals-interleaved", core.Opts{Rule: "two traversals of two different trees alive at once on one goroutine, advanced in every order, either one abandoned at any point: each yields exactly its own tree's classic order (state shared between iterator values - a pooled stack, a package-level slice - shows here); non-trivial = all"},
+		func(emit func(pairCase) bool) {
+			var trees [][]int
+			enum.TreesUpTo(NP, func(c []int) bool { trees = append(trees, append([]int(nil), c...)); return true })
+			for _, a := range trees {
+				for _, b := range trees {
+					if !emit(pairCase{a, b}) {
+						return
+					}
+				}
+			}
+		},
+		func(c pairCase) core.Outcome {
+			ra, _ := buildTree(c.A)
+			rb, _ := buildTree(c.B)
+			name := func(prefix string) func(n *newick.Node) string {
+				return func(n *newick.Node) string { return prefix + n.Name }
+			}
+			var total core.Outcome
+			for _, kind := range []string{"pre/pre", "post/post", "pre/post"} {
+				sa, sb := ra.PreOrder(), rb.PreOrder()
+				if kind == "post/post" {
+					sa, sb = ra.PostOrder(), rb.PostOrder()
+				}
+				if kind == "pre/post" {
+					sb = rb.PostOrder()
+				}
+				out := interleavedSeqs(fmt.Sprintf("trees %v and %v (%s)", c.A, c.B, kind), asStrings1(sa, name("a:")), asStrings1(sb, name("b:")))
+				if out.Fail != "" {
+					return out
+				}
+				total.Evals += out.Evals
+			}
+			total.Class, total.Nontrivial = "ok", true
+			return total
+		})
+
 	core.Clause(r, "degenerate", core.Opts{Serial: true, Rule: "chain of depth n, star with n children, comb (chain with a leaf at every level), combs whose side children are inner nodes (met before / after the deep descent, at every level on the way back up), and roots whose children are every sequence of up to 3 of {chain of n nodes, inner node, leaf} with at least one chain (deep dip, back to the root, further subtrees), for the listed n; non-trivial = all"},
 		func(emit func(c19Big) bool) {
 			for _, n := range []int{1000, 100000, 1000000} {
